@@ -129,6 +129,13 @@ def handle (args : List String) : String :=
       let e1 := idx.flatMap fun i => idx.map fun k => irrepCS sq Nat.toFloat j2 cb sb p m i k
       let e2 := idx.flatMap fun i => idx.map fun k => symD sq Nat.toFloat j2 (U 0 0) (U 0 1) (U 1 0) (U 1 1) i k
       return s!"{cxListStr e1} {cxListStr e2}"
+  | ["cg", j1, j2] => Id.run do
+      let some j1 := j1.toNat? | return "bad-op"
+      let some j2 := j2.toNat? | return "bad-op"
+      if j1 + j2 > 24 then return "bad-op"
+      let lo := if j1 ≥ j2 then j1 - j2 else j2 - j1
+      let js := (List.range (j1 + j2 + 1)).filter fun j => j ≥ lo && (j - lo) % 2 == 0
+      return " ".intercalate (js.map fun j => s!"{j}|" ++ ";".intercalate ((cgTable j1 j2 j).map fun e => s!"{e.1}:{ratStr e.2}"))
   | ["rot2", m, n] => Id.run do
       let some m := m.toInt? | return "bad-op"
       let some n := n.toInt? | return "bad-op"
